@@ -72,6 +72,13 @@ func NewEngine(c EngCfg) *liquid.Engine {
 		}
 		return ctx.RenderFile(filepath.Join(filepath.Dir(ctx.SourceFile()), name), extras)
 	})
+	// bset: a custom tag that defines a variable by writing into Context.Bindings()
+	// (the "current lexical environment") rather than through Context.Set
+	e.RegisterTag("bset", func(ctx render.Context) (string, error) {
+		name := strings.TrimSpace(ctx.TagArgs())
+		ctx.Bindings()["bset_"+name] = "<" + name + ">"
+		return "", nil
+	})
 	e.RegisterTag("expand", func(ctx render.Context) (string, error) {
 		s, err := ctx.ExpandTagArg()
 		if err != nil {
